@@ -184,7 +184,52 @@ where
     rec.ev("hugenew", json!({"bpp": i(&d["bpp"]), "items": items}));
 }
 
+/// One image with more than 2^32 pixels (1 bpp, 65536 x 65540, 512 MiB of lazily zeroed memory of which a few pages are
+/// touched): a sub-image behind raw pixel index 2^32, pixel() there, and the whole image on a target that stops reading.
+fn run_giant(rec: &mut Rec, d: &Value) {
+    rec.begin(d.clone());
+    let (w, h) = (65536u32, 65540u32);
+    let bpr = (w / 8) as usize;
+    let mut data = vec![0u8; bpr * h as usize];
+    let (sx, sy) = (8i32, 65536i32);
+    let rowbytes = [[0xA5u8], [0x3Cu8]];
+    for (k, rb) in rowbytes.iter().enumerate() {
+        data[(sy as usize + k) * bpr + (sx / 8) as usize] = rb[0];
+    }
+    let r = catch(|| {
+        let raw = ImageRaw::<BinaryColor>::new(&data, Size::new(w, h)).expect("giant image");
+        let sub = raw.sub_image(&Rectangle::new(Point::new(sx, sy), Size::new(8, 2)));
+        let mut t = Drain::<BinaryColor>::new();
+        Image::new(&sub, Point::new(-3, 5)).draw(&mut t).unwrap();
+        let probes: Vec<Value> = [(sx, sy), (sx + 2, sy), (sx + 7, sy + 1), (sx + 3, sy + 1), (0, 0), (65535, 65539), (65536, 0), (0, 65540), (sx, -1)]
+            .iter()
+            .map(|&(x, y)| match raw.pixel(Point::new(x, y)) {
+                Some(c) => json!([x, y, [ci(c)]]),
+                None => json!([x, y, []]),
+            })
+            .collect();
+        let mut tw = Drain::<BinaryColor>::new();
+        tw.store_cap = 64;
+        Image::new(&raw, Point::zero()).draw(&mut tw).unwrap();
+        json!({"size": [w, h], "sub": [sx, sy, 8, 2], "at": [-3, 5], "rowbytes": [[0xA5], [0x3C]], "subcalls": t.calls, "probes": probes, "whole": tw.calls,
+               "cap": HARD_CAP})
+    });
+    match r {
+        Ok(o) => {
+            rec.nontrivial();
+            rec.ev("giant", o);
+        }
+        Err(pn) => {
+            rec.note("panicked_giant");
+            rec.ev("panic", json!({"msg": pn.msg, "loc": pn.loc}));
+        }
+    }
+}
+
 fn run_case(rec: &mut Rec, d: &Value) {
+    if d["k"].as_str() == Some("giant") {
+        return run_giant(rec, d);
+    }
     if d["k"].as_str() == Some("huge") {
         type LE = LittleEndianMsb0;
         type BE = BigEndianLsb0;
@@ -320,6 +365,7 @@ fn main() {
     for (bpp, ord) in [(1, 0), (2, 1), (4, 0), (8, 1), (16, 0), (24, 1), (24, 0), (32, 0)] {
         run_case(&mut rec, &json!({"k":"huge","bpp":bpp,"ord":ord}));
     }
+    run_case(&mut rec, &json!({"k":"giant"}));
     // seeded part: random sizes, random chains (depth <= 3), random data, with_center in all parities
     let (n, smax_w, smax_h) = if args.thorough() { (100_000, 33, 9) } else { (3_000, 12, 6) };
     for _ in 0..n {
